@@ -57,6 +57,8 @@ func rulesC07(c *Ctx) {
 	ruleErrHolderShared(c, "C07.CHAINHOLDER")
 	ruleErrorLookedAtOnEveryPath(c, "C07.LOOKEDAT", c.prodFuncs("boltz"))
 	ruleHandedHolderConsulted(c, "C07.HANDEDHOLDER")
+	ruleLoopSkip(c, "C07.LOOPSKIP", c.prodFuncs("boltz", "objectz"))
+	ruleRegistrationReachesPhase(c, "C07.VETOREG", "pre")
 }
 
 // ---- C07.HOLDER ------------------------------------------------------------------------------
